@@ -117,8 +117,9 @@ func (c *DecoratorCfg) Selects(res *Resource, o Object) bool {
 // a function of the target object: spec.decorate.{labels,annotations,statusMode},
 // spec.replicas (number of attachments) and spec.color.
 type DecorateProgram struct {
-	Kinds []*Resource
-	Tag   string // distinguishes several decorators on one target
+	Kinds      []*Resource
+	Tag        string // distinguishes several decorators on one target
+	PlainOwner bool   // attachments carry a plain (non-controller) ownerReference to the target
 }
 
 func (dp *DecorateProgram) attachments(req Object) []Object {
@@ -129,6 +130,9 @@ func (dp *DecorateProgram) attachments(req Object) []Object {
 		for i := 0; i < n; i++ {
 			name := fmt.Sprintf("%s-%s%d-%d", mstr(obj, "name"), dp.Tag, ki, i)
 			md := Object{"name": name, "labels": Object{"decorated-by": dp.Tag}}
+			if dp.PlainOwner && mstr(obj, "uid") != "" {
+				md["ownerReferences"] = []interface{}{Object{"apiVersion": obj["apiVersion"], "kind": obj["kind"], "name": mstr(obj, "name"), "uid": mstr(obj, "uid")}}
+			}
 			o := Object{"apiVersion": k.APIVersion(), "kind": k.Kind, "metadata": md,
 				childContentField(k): Object{"color": getPath(obj, "spec", "color"), "idx": int64(i)}}
 			if k.Namespaced && mstr(obj, "namespace") == "" {
@@ -214,6 +218,7 @@ func NewTarget(res *Resource, ns, name string, replicas int, lbls, anns map[stri
 }
 
 type DGenOpts struct {
+	PlainOwner    bool // allow programs whose attachments carry a plain ownerReference to the target
 	MaxDecorators int
 	Finalize      int // 0 draw, 1 always, -1 never
 	MaxWorkers    int
@@ -261,7 +266,7 @@ func NewDecoratorSetup(w *World, g DGenOpts) *DSetup {
 		}
 		ds.Cfgs = append(ds.Cfgs, c)
 		ds.Opts.Decorators = append(ds.Opts.Decorators, c)
-		dp := &DecorateProgram{Kinds: []*Resource{ak}, Tag: c.Name}
+		dp := &DecorateProgram{Kinds: []*Resource{ak}, Tag: c.Name, PlainOwner: g.PlainOwner && t.Pick(6, "plainowner") == 5}
 		ds.Progs[c.Name] = &Program{Sync: dp.Sync, Finalize: dp.Finalize}
 		mustCreate(w.Store, ResDecoratorCtl, "", c.Object(), "setup")
 	}
